@@ -35,4 +35,11 @@ Follows(s) == /\ Len(hist) < Len(s)
 
 ScriptNext == \E s \in Scripts : Follows(s) /\ Step(s[Len(hist) + 1])
 ScriptSpec == Init /\ [][ScriptNext]_vars
+
+\* Seeded simulation: the scripts are prefixes (all of one length), after which the behaviour continues with Next.
+\* Used to start random behaviours in states plain simulation reaches rarely (e.g. retryable sync with flushed but
+\* unsynced bytes and an unflushed tail in the write buffer: Append; Flush; Append).
+PrefixLen == Len(CHOOSE s \in Scripts : TRUE)
+PrefixNext == IF Len(hist) < PrefixLen THEN ScriptNext ELSE Next
+PrefixSpec == Init /\ [][PrefixNext]_vars
 =============================================================================
